@@ -71,6 +71,10 @@ structure State where
   delivered : List (Nat × Nat × Nat) := []
   -- ghost: every transmission (pipe, request id, body)
   txlog : List (Nat × Nat × Bytes) := []
+  -- ghost: what every Send call was given (request id, body)
+  sent : List (Nat × Bytes) := []
+  -- ghost: the request (by number) each reply returned by Recv was delivered for
+  deliveredFor : List Nat := []
 deriving Repr, BEq
 
 def init : State := {}
@@ -127,7 +131,7 @@ def wakeRecv (s2 : State) (c : Nat) (nopeers : Bool) (sendEvs : List (Nat × Ev)
       else
       match y.repMsg with
       | some m =>
-        (setCtx { s3 with delivered := s3.delivered ++ [(c, beDec m.1, enc y.reqID)], ctxByID := s3.ctxByID.filter (fun e => e.2 != c) } c
+        (setCtx { s3 with delivered := s3.delivered ++ [(c, beDec m.1, enc y.reqID)], ctxByID := s3.ctxByID.filter (fun e => e.2 != c), deliveredFor := s3.deliveredFor ++ [y.reqID] } c
             (fun z => { z with reqID := 0, repMsg := none, receiveWait := false }), sendEvs ++ [(pr.call, Ev.retMsg pr.call m.1 m.2)])
       | none => (s3, sendEvs)
 
@@ -371,7 +375,7 @@ def core (s : State) (now : Nat) (op : List String) : List (State × List Ev × 
   | ["send", call, ctx, _, b] =>
     let call := natOf call
     let n := s.nsent + 1
-    let s0 := { s with nsent := n }
+    let s0 := { s with nsent := n, sent := s.sent ++ [(n, bytesOf b)] }
     match getCtx s (natOf ctx) with
     | none => []
     | some c =>
